@@ -104,6 +104,11 @@ Inductive ctest :=
 | CWithin (depth : nat) (magic : bytes).     (* magic in peek_data[:depth] *)
 Record cont_branch := { cb_guard : option flag; cb_test : ctest; cb_adapter : bytes }.
 
+(* RecordStreamReader.readheader's acceptance test on the bytes it read *)
+Inductive htest :=
+| HEndsWith (m : bytes)      (* header.endswith(m) *)
+| HContains (m : bytes).     (* m in header *)
+
 Record facts := {
   f_sniff_chain : list sniff_branch;          (* open_stream, in source order *)
   f_sniff_peek : nat;                         (* how many bytes open_stream asks peek() for *)
@@ -120,6 +125,9 @@ Record facts := {
   f_default_adapter : bytes;                  (* ext_to_adapter.get(ext, <this>) *)
   f_rs_magic : bytes;                         (* RECORDSTREAM_MAGIC *)
   f_header_frame : bytes;                     (* the first bytes a RecordStreamWriter writes *)
+  f_header_read_len : nat;                    (* RecordStreamReader.readheader: self.fp.read(<this>) *)
+  f_header_test : htest;                      (* ... and the test the bytes read must pass (else IOError) *)
+  f_flag_deps : list (flag * list bytes);     (* base.py import block: the modules whose import decides each HAS_* flag *)
   f_env : env                                 (* the HAS_* values of the running installation *)
 }.
 
@@ -355,6 +363,22 @@ Arguments AdapterNotFound {R}.
 Arguments CodecError {R}.
 Arguments NotAvailable {R} _.
 
+(* second stage for the record-stream container: the "stream" adapter's reader accepts the (decompressed) content d only
+   if its header passes readheader's test; otherwise IOError("Unknown file format, not a RecordStream") *)
+Definition stream_header_ok (F : facts) (d : bytes) : bool :=
+  let h := firstn (f_header_read_len F) d in
+  match f_header_test F with
+  | HEndsWith m => ends_with m h
+  | HContains m => is_infix m h
+  end.
+
+(* the module each optional-codec flag stands for *)
+Definition std_module (f : flag) : bytes :=
+  match f with FBz2 => B "bz2" | FLz4 => B "lz4.frame" | FZstd => B "zstandard" | FAvro => B "fastavro" end.
+
+Fixpoint flag_lookup (f : flag) (t : list (flag * list bytes)) : option (list bytes) :=
+  match t with [] => None | (g, ms) :: t' => if flag_eqb f g then Some ms else flag_lookup f t' end.
+
 (* What the theorems assume about the environment: the first peek() delivers at least the leading [peek_depth]
    bytes of the stream (or all of it); a compressor's output starts with its format's signature; "no compression"
    is the identity; decompress inverts compress. *)
@@ -427,6 +451,19 @@ Definition adapters_ok (F : facts) : bool :=
                     | x :: _ => is_lower x && forallb (fun b => is_lower b || is_digit b) n
                     | [] => false end) names.
 
+(* readheader reads exactly one header frame and requires it to END with the stream magic *)
+Definition header_ok (F : facts) : bool :=
+  Nat.eqb (f_header_read_len F) (List.length (f_header_frame F)) &&
+  match f_header_test F with HEndsWith m => beqb m (f_rs_magic F) | HContains _ => false end.
+
+(* every HAS_* flag is decided by the import of exactly its own module (so that [e f] means "f's module is importable",
+   independently of the other optional modules) *)
+Definition flag_deps_ok (F : facts) : bool :=
+  forallb (fun f => match flag_lookup f (f_flag_deps F) with
+                    | Some [m] => beqb m (std_module f)
+                    | _ => false end) [FBz2; FLz4; FZstd; FAvro].
+
 Definition facts_ok (F : facts) : bool :=
   sniff_chain_ok F && ext_chain_ok F && cont_chain_ok F && containers_vs_codecs_ok F && adapters_ok F &&
-  f_writer_passthrough F && f_path_fallback_sniffs F && f_stdin_fallback_sniffs F && f_private_codec_state F.
+  f_writer_passthrough F && f_path_fallback_sniffs F && f_stdin_fallback_sniffs F && f_private_codec_state F &&
+  header_ok F && flag_deps_ok F.
